@@ -583,6 +583,116 @@ def parse_tetrahedron(tree, vec_defaults):
     return cfg
 
 
+def gen_orientation(tree):
+    """check_format_input_orientation: pinned statement by statement; scipy's as_quat / np.reshape are modelled
+    (a single rotation has one quaternion, a stack of n has n)"""
+    fn = get_fn(tree, "check_format_input_orientation")
+    if argnames(fn) != ["inp", "init_format"] or defaults(fn) != {"init_format": False}:
+        raise Untranslatable("check_format_input_orientation signature")
+    body = strip_doc(fn.body)
+    want = ["if not isinstance(inp, (Rotation, type(None))):",
+            "if inp is None:\n    inpQ = np.array((0, 0, 0, 1))\n    inp = Rotation.from_quat(inpQ)\nelse:\n"
+            "    inpQ = inp.as_quat()",
+            "if init_format:\n    return np.reshape(inpQ, (-1, 4))",
+            "return (inp, inpQ)"]
+    if len(body) != 4:
+        raise Untranslatable("check_format_input_orientation: expected 4 statements")
+    g = body[0]
+    if not (ast.unparse(g).startswith(want[0]) and isinstance(g, ast.If) and not g.orelse and len(g.body) == 1
+            and is_raise_bad(g.body[0])):
+        fail(g, "orientation type test")
+    for st, w in zip(body[1:], want[1:]):
+        if ast.unparse(st) != w:
+            fail(st, "check_format_input_orientation statement")
+    return ("(* check_format_input_orientation(inp, init_format=True): the number of quaternions that are stored *)\n"
+            "Definition check_format_input_orientation (inp : oinput) : oout :=\n"
+            "  match inp with\n"
+            "  | ONotRotation => ORejected       (* not isinstance(inp, (Rotation, type(None))) *)\n"
+            "  | ONone => OStored 1              (* inpQ = np.array((0, 0, 0, 1)) ; reshape (-1, 4) *)\n"
+            "  | ORot single n => OStored (if single then 1 else n)   (* inp.as_quat() ; reshape (-1, 4) *)\n"
+            "  end.\n")
+
+
+def gen_field_func(tree):
+    """validate_field_func: None / callable / argument names / per probed field: None or ndarray of the probe shape"""
+    fn = get_fn(tree, "validate_field_func")
+    if argnames(fn) != ["val"]:
+        raise Untranslatable("validate_field_func signature")
+    body = strip_doc(fn.body)
+    if len(body) != 6:
+        raise Untranslatable("validate_field_func: expected 6 statements")
+    if ast.unparse(body[0]) != "if val is None:\n    return None":
+        fail(body[0], "validate_field_func None step")
+    g = body[1]
+    if not (isinstance(g, ast.If) and ast.unparse(g.test) == "not callable(val)" and not g.orelse
+            and len(g.body) == 1 and is_raise_bad(g.body[0])):
+        fail(g, "validate_field_func callable test")
+    if ast.unparse(body[2]) != "fn_args = inspect.getfullargspec(val).args":
+        fail(body[2], "validate_field_func argspec")
+    g = body[3]
+    if not (isinstance(g, ast.If) and ast.unparse(g.test) == "fn_args[:2] != ['field', 'observers']" and not g.orelse
+            and len(g.body) == 1 and is_raise_bad(g.body[0])):
+        fail(g, "validate_field_func argument-name test")
+    loop = body[4]
+    if not (isinstance(loop, ast.For) and is_name(loop.target, "field") and isinstance(loop.iter, ast.List)
+            and all(isinstance(x, ast.Constant) and isinstance(x.value, str) for x in loop.iter.elts)
+            and not loop.orelse and len(loop.body) == 2):
+        fail(loop, "validate_field_func loop")
+    fields = [x.value for x in loop.iter.elts]
+    call = loop.body[0]
+    if not (isinstance(call, ast.Assign) and len(call.targets) == 1 and is_name(call.targets[0], "out")
+            and isinstance(call.value, ast.Call) and is_name(call.value.func, "val") and len(call.value.args) == 2
+            and not call.value.keywords and is_name(call.value.args[0], "field")
+            and ast.unparse(call.value.args[1]).startswith("np.array(")):
+        fail(call, "validate_field_func probe call")
+    probe = call.value.args[1]
+    if len(probe.args) != 1 or probe.keywords:
+        fail(probe, "probe observers")
+    rows = ast.literal_eval(probe.args[0])
+    pshape = (len(rows), len(rows[0]))
+    if any(len(r) != pshape[1] for r in rows):
+        fail(probe, "ragged probe observers")
+    chk = loop.body[1]
+    if not (isinstance(chk, ast.If) and ast.unparse(chk.test) == "out is not None" and not chk.orelse
+            and len(chk.body) == 2):
+        fail(chk, "validate_field_func output test")
+    c1, c2 = chk.body
+    if not (isinstance(c1, ast.If) and ast.unparse(c1.test) == "not isinstance(out, np.ndarray)" and not c1.orelse
+            and len(c1.body) == 1 and is_raise_bad(c1.body[0])):
+        fail(c1, "validate_field_func ndarray test")
+    if not (isinstance(c2, ast.If) and isinstance(c2.test, ast.Compare) and len(c2.test.ops) == 1
+            and isinstance(c2.test.ops[0], ast.NotEq) and ast.unparse(c2.test.left) == "out.shape"
+            and not c2.orelse and len(c2.body) == 1 and is_raise_bad(c2.body[0])):
+        fail(c2, "validate_field_func shape test")
+    want = literal(c2.test.comparators[0])
+    if not (isinstance(want, tuple) and all(isinstance(x, int) for x in want)):
+        fail(c2, "expected output shape")
+    if not (isinstance(body[5], ast.Return) and is_none_const(body[5].value)):
+        fail(body[5], "validate_field_func return")
+    fl = "[" + "; ".join('"%s"' % f for f in fields) + "]"
+    return (f"(* for field in {clean(str(fields))}: out = val[field, observers of shape {pshape}] *)\n"
+            f"Definition field_func_fields : list string := {fl}%string.\n"
+            f"Definition field_func_probe_shape : shape := [{'; '.join(coq_z(x) for x in pshape)}].\n"
+            "Definition validate_out (o : fout) : res :=\n"
+            "  match o with\n"
+            "  | FoRaises => Crash                 (* the user's function raises: propagates *)\n"
+            "  | FoNone => Ok                      (* if out is not None: *)\n"
+            "  | FoNotArray => Bad                 (* if not isinstance[out, np.ndarray]: raise *)\n"
+            f"  | FoArray s => if shape_eqb s [{'; '.join(coq_z(x) for x in want)}] then Ok else Bad"
+            f"   (* if out.shape != {clean(str(want))}: raise *)\n"
+            "  end.\n"
+            "Fixpoint validate_outs (l : list fout) : res :=\n"
+            "  match l with [] => Ok | o :: r => match validate_out o with Ok => validate_outs r | x => x end end.\n"
+            "Definition validate_field_func (v : finput) : res :=\n"
+            "  match v with\n"
+            "  | FNone => Ok                       (* if val is None: return None *)\n"
+            "  | FNotCallable => Bad               (* if not callable[val]: raise *)\n"
+            "  | FCallable args_ok outs =>\n"
+            "      if negb args_ok then Bad        (* fn_args[:2] != [field, observers] *)\n"
+            "      else validate_outs (firstn (List.length field_func_fields) outs)\n"
+            "  end.\n")
+
+
 def generate(repo):
     path = os.path.join(repo, "magpylib/_src/input_checks.py")
     tree = ast.parse(open(path).read())
@@ -595,4 +705,6 @@ def generate(repo):
     out.append(gen_scalar(tree))
     out.append(gen_vertices(tree, vec_defaults))
     out.append(gen_cylseg(tree, vec_defaults))
+    out.append(gen_orientation(tree))
+    out.append(gen_field_func(tree))
     return "\n".join(out)
